@@ -134,7 +134,20 @@ def check_activity_guards(ctx, rule="CMP-activity"):
     raise AnalysisError(f"_process_element: expected >= 2 interval unpackings (element, animation step), found {len(pairs)}")
   for (bv, ev, st) in pairs:
     tests = []
-    for g in own_nodes(pe.node):
+    from . import match as _mt
+    for g0 in own_nodes(pe.node):
+      if not isinstance(g0, ast.If):
+        continue
+      g = g0
+      bare = g0.test.operand if isinstance(g0.test, ast.UnaryOp) and isinstance(g0.test.op, ast.Not) else g0.test
+      if not (tname in names_in(g.test) and ({bv, ev} & names_in(g.test))) and isinstance(bare, ast.Name):
+        # the test may read the comparison through a local (`is_active = not (...)`; `if not is_active: return None`)
+        t_in = _mt.inline_locals_deep(pe.node, g0.test, keep={bv, ev, tname})
+        if tname in names_in(t_in) and ({bv, ev} & names_in(t_in)):
+          g = ast.If(test=t_in, body=g0.body, orelse=g0.orelse)
+          ast.copy_location(g, g0)
+          ast.fix_missing_locations(g)
+          g._parent = getattr(g0, "_parent", None)
       if isinstance(g, ast.If) and tname in names_in(g.test) and ({bv, ev} & names_in(g.test)):
         if exits_after(g):
           tests.append(g)
@@ -631,11 +644,23 @@ def check_style_order(ctx, rule="ORD-style"):
               f"prune on display, children, drop inapplicable); found statement {idx[a]} vs {idx[b]}")
   # PRI guards: later writers must not overwrite earlier ones
   def has_skip_guard(loop):
+    """every store of the loop's property on the snapshot element is reached only when the element has no value for it yet
+    (an early `continue`, an enclosing `if not has_style(..)`, either polarity)"""
+    from . import match as _mt
     var = unparse(loop.target)
-    for st in loop.body:
-      if isinstance(st, ast.If) and "has_style" in unparse(st.test) and var in unparse(st.test) and isinstance(st.body[-1], ast.Continue):
-        return True
-    return False
+    sets = [c for c in own_nodes(loop) if isinstance(c, ast.Call) and isinstance(c.func, ast.Attribute) and c.func.attr == "set_style" and c.args and var in unparse(c.args[0])]
+    if not sets:
+      return False
+    for c in sets:
+      ok = False
+      for (t, pol) in _mt.reaching_conditions(c, loop):
+        while isinstance(t, ast.UnaryOp) and isinstance(t.op, ast.Not):
+          t, pol = t.operand, not pol
+        if isinstance(t, ast.Call) and isinstance(t.func, ast.Attribute) and t.func.attr == "has_style" and var in unparse(t) and pol is False:
+          ok = True
+      if not ok:
+        return False
+    return True
   for k in ("specified", "initial"):
     ctx.check(has_skip_guard(mk.m[k]), "PRI-style", f"{f.qualname}|{k} does not overwrite", ctx.where(f.module, mk.m[k]),
               f"`{k}` styles are skipped when the property already has a value",
@@ -899,7 +924,14 @@ def axis_of(f: FuncInfo, e, depth=0):
           x_, y_ = (picked[0][0], picked[1][0]) if first_in_body else (picked[1][0], picked[0][0])
           return ("cond", unparse(pa.test), axis_of(f, x_, depth + 1), axis_of(f, y_, depth + 1))
   if isinstance(e, ast.IfExp):
-    return ("cond", unparse(e.test), axis_of(f, e.body, depth + 1), axis_of(f, e.orelse, depth + 1))
+    test = e.test
+    if getattr(test, "_parent", None) is not None:
+      from . import match as _mt
+      try:
+        test = _mt.inline_locals_deep(f.node, test, depth=1, keep={"is_vertical"})      # `along = not is_vertical; a if along else b` reads as `a if not is_vertical else b`
+      except Exception:
+        test = e.test
+    return ("cond", unparse(test), axis_of(f, e.body, depth + 1), axis_of(f, e.orelse, depth + 1))
   if isinstance(e, ast.Name):
     ds = []
     for v, st in _defs_of(f, e.id):
